@@ -4,13 +4,67 @@ import json, os
 HERE = os.path.dirname(os.path.abspath(__file__))
 VERIF = os.path.dirname(HERE)
 
+SEQ_NOTE = ("Trusts the blake3 crate, the harness's reference model / independent decoders and SimDisk "
+            "(compared with tmpfs after every run). Real parking_lot, one simulated client thread; "
+            "Async fdatasync worker and rayon are real and uncontrolled. Sampling, not proof.")
+CONC_NOTE = ("Caller threads are shuttle coroutines; parking_lot is replaced by a writer-preferring shim over shuttle "
+             "primitives (fairness not modelled); every lock operation and intercepted libc call is a scheduling point; "
+             "Sync mode only (the Async worker thread is outside the controlled schedule). Sampling of schedules, not proof.")
+
+def C(level, ref, technique, text, note=SEQ_NOTE, engine="casim-seq"):
+    return dict(level=level, ref=ref, technique=technique, text=text, note=note, engine=engine)
+
 CLAIMED = {
-  "C01": dict(level="exploration", ref="3 C01", technique="deterministic simulation: seeded histories vs. reference map, short-I/O + EINTR noise",
-      text="Seeded search over sequential histories (8 key types, all chunkings, both sync modes, all segment sizes) executed against the real store through the libc seam, compared call by call with a BTreeMap reference model and audited (iter/range/len/contains/known_blobs/stats/files) every few steps; one third of runs add short reads/writes and EINTR which must be invisible. Sampling, not proof.",
-      note="Trusts the blake3 crate, the harness's reference model and SimDisk (checked against tmpfs after every run). Real parking_lot, one client thread."),
+  "C01": C("exploration", "3 C01", "deterministic simulation: seeded histories vs. reference map, short-I/O + EINTR noise",
+      "Seeded search over sequential histories (8 key types, all chunkings, both sync modes, all segment sizes) executed against the real store through the libc seam, compared call by call with a BTreeMap reference model and audited (iter/range/len/contains/known_blobs/stats/files) every few steps; one third of runs add short reads/writes and EINTR which must be invisible."),
+  "C02": C("exploration", "3 C02", "deterministic simulation: restart placement at WAL segment boundaries, before/after observation equality",
+      "Histories with clean restarts and checkpoints placed preferentially at version mod N in {0,1,N-1}, repeated restarts, N=1; the full observable state before drop, after open and in the model must agree; C20 monitors watch versions/segments across restarts."),
+  "C03": C("fault_enumeration", "3 C03", "deterministic simulation: process-kill cut at every mutating-call boundary, recovery by the real code, nested cuts",
+      "For each sampled history every boundary between mutating libc calls (incl. first-time initialisation, checkpoints, roll-over, drop) is a kill point; SimDisk materialises the image, the real open_with_recover recovers it and the result must be M_{i-1} or M_i with no missing/corrupted blob; each recovery's own trace is cut again; sampled images continue with clean-up and a usability suffix."),
+  "C04": C("exploration", "3 C04", "deterministic simulation: seeded schedules of writer programs, no-dangling monitor at every step",
+      "Small writer programs (same key / same content collisions, removes, range removes, checkpoints, clean-up) run under uniform/sticky/PCT/targeted seeded schedules at lock-operation and syscall granularity; after every step the logged state (snapshot+WAL, decoded independently) must resolve to existing blobs of the right size; end state readable and linearizable.",
+      CONC_NOTE, "casim-conc"),
+  "C05": C("exploration", "3 C05", "deterministic simulation: seeded schedules + Wing-Gong linearizability check against a map model",
+      "Readers race overwriting/removing writers on one key with unique values; every read must be Ok and equal one written value in full; the stamped history must be linearizable against the map model (remove/remove_range with separate observe and apply points) and explain the final state.",
+      CONC_NOTE, "casim-conc"),
+  "C06": C("exploration", "3 C06", "deterministic simulation: cas-immutability monitor at every call, crash/power images, long-lived readers",
+      "MON-cas-immutable (no open-for-write/write/truncate on cas paths; content hashes to its name when it becomes visible) at every intercepted call of sequential histories, crash-image recoveries, power-loss images and concurrent schedules; readers opened before overwrite/remove must stream the complete original content.",
+      SEQ_NOTE + " Concurrent part: " + CONC_NOTE, "casim-seq"),
+  "C07": C("exploration", "3 C07", "deterministic simulation: exact file-set oracle after every step and at the end of every schedule",
+      "cas/ must hold exactly the referenced blobs and staging/ must be empty after every mutating step of every fault-free history, after clean restarts (scan reports nothing) and at the end of every error-free concurrent schedule.",
+      SEQ_NOTE + " Concurrent part: " + CONC_NOTE, "casim-seq"),
+  "C08": C("exploration", "3 C08", "deterministic simulation: seeded schedules of clean-up racing puts of orphaned content",
+      "Concurrent part only so far: delete_orphans / quarantine_orphans / delete_orphan race puts of the orphaned content (also two writers on one key) and removes; a blob that a put committed must never be removed (no-dangling monitor + end-state reads). Crash-image scan exactness is checked inside C03's judge.",
+      CONC_NOTE, "casim-conc"),
+  "C09": C("fault_enumeration", "3 C09", "deterministic simulation: power-loss images = cut x loss sets over SimDisk's durable view",
+      "Sync mode: for sampled cuts all 2^d choices of which dirty files lose their unsynced bytes (d<=4; sampled beyond) are materialised from SimDisk's durable view, recovered by the real code and judged like C03; exactly the property's fault model (all-or-nothing per file, directory operations in order)."),
+  "C10": C("fault_enumeration", "3 C10", "deterministic simulation: byte-level truncation and flip of the un-checkpointed log at rest",
+      "For sampled histories with an un-checkpointed tail: every truncation offset (<=2 KiB tails) and every checksum/payload byte x 4 values (<=1 KiB) is applied to a copy; open must fail or show exactly the state after the undamaged prefix, and never panic."),
+  "C11": C("exploration", "3 C11", "deterministic simulation: seeded schedules of racing opens at syscall granularity",
+      "Threads part: 2-4 tasks race open/open_with_recover on one directory with clones and OrphanStats kept past the drop; at most one live handle, losers fail with AlreadyOpened without any mutating call except opening LOCK, a final open succeeds. The separate-process part is not built yet.",
+      CONC_NOTE + " flock semantics are the kernel's (real).", "casim-conc"),
+  "C12": C("exploration", "3 C12", "deterministic simulation: refcount/stat oracle after every audit, restart and crash recovery",
+      "known_blobs, contains_blob_hash, unique_blobs, total_bytes, get_size versus model multiplicities after audits, restarts and judged crash recoveries; the build has overflow checks on so an underflow panics."),
+  "C13": C("exploration", "3 C13", "deterministic simulation: aborted transactions at every position + abort racing commit under seeded schedules",
+      "Sequential: directory fingerprint (cas/, staging/, WAL bytes, snapshot) and reads identical before/after every abandoned transaction, also after restart. Concurrent: a transaction abandoned at a scheduler-chosen point while others commit/remove; the final state must be what the committing tasks alone produce.",
+      SEQ_NOTE + " Concurrent part: " + CONC_NOTE, "casim-seq"),
+  "C15": C("exploration", "3 C15", "deterministic simulation: seeded schedules with deadlock/hang detection by the controlled scheduler",
+      "Programs with the full call mix incl. explicit and roll-over checkpoints and clean-up; every execution must end with all tasks finished (no runnable task = deadlock; > 30000 steps = hang); the writer-preferring RwLock shim makes reader-recursion deadlocks reachable; the held->acquired lock graph is reported.",
+      CONC_NOTE, "casim-conc"),
+  "C17": C("exploration", "3 C17", "deterministic simulation: short-read injection over an enumerated (L,start,end) cube",
+      "get_range is a pread loop: all (start,end) in [0,L+2]^2 for L=0..6 exhaustively, L around buffer sizes with boundary bounds up to 2^64-1, half the runs with every pread shortened; results must equal the slice, inverted ranges rejected exactly when start < L, readers drain to L bytes."),
+  "C18": C("exploration", "3 C18", "deterministic simulation: chunking enumeration + short-write/EINTR injection on the staging stream",
+      "All 2^(len-1) chunkings for len<=5 (plus empty-chunk variants), random chunkings incl. > 8 KiB chunks under short writes and EINTR; committed hash == blake3(content), size == len, file at the checker-computed path with exact bytes, no other file. Path bijection only on hashes that occur (pure law: see DESIGN.md 7)."),
+  "C19": C("exploration", "3 C19", "deterministic simulation: rejected opens inside histories, byte-identical directory image and call-trace check",
+      "Opens with a different num_ops_per_wal, a forged stored version, or a flipped pre-create choice at random positions of populated histories; rejected opens must leave SimDisk byte-identical and issue no mutating call but opening LOCK; the next correct open shows the model."),
+  "C20": C("exploration", "3 C20", "deterministic simulation: on-disk well-formedness monitor with an independent decoder after every mutating call",
+      "After every mutating call that touches the snapshot or a segment, in plain histories, restarts and crash-image recoveries: complete checksummed records, at most one trailing end marker, strictly increasing versions within segment ranges, never reused across restarts, snapshot decodable and monotone, snapshot+log equal to the acknowledged or in-flight state."),
 }
 
-NOT_YET = {}
+NOT_YET = {
+  "C14": "not claimed yet: the F-err mode (one failed mutating call, per-key uncertainty model) is still under construction in this round; it is a simulation target (DESIGN.md 3 C14)",
+  "C16": "not claimed yet: the F-forge mode (forged snapshots / WAL records between two opens) is still under construction in this round; the pure round-trip law over all values is not a simulation target (DESIGN.md 7)",
+}
 
 def main():
     props = [json.loads(l) for l in open(os.path.join(VERIF, "properties.jsonl"))]
@@ -25,30 +79,30 @@ def main():
                 "thorough_cmd": f"./check {pid} --tier thorough",
                 "evidence_file": f"evidence/{pid}.json",
                 "replay_cmd_template": "./check replay {path}",
-                "engine": c.get("engine", "casim-seq"),
+                "engine": c["engine"],
                 "level_claimed": {"category": c["level"], "text": c["text"], "design_ref": c["ref"]},
                 "level_note": c["note"],
                 "technique": c["technique"],
             })
         else:
-            na.append({"property_id": pid, "reason": NOT_YET.get(pid, "not claimed yet: its check is still under construction in this round (see DESIGN.md §3 for the planned procedure); it is a simulation target and will be claimed once the check exists")})
+            na.append({"property_id": pid, "reason": NOT_YET.get(pid, "not claimed yet: check under construction")})
     m = {
         "version": 1,
         "setup_cmd": "./check build",
         "hooks": {
             "guard": "cassadilia_verif",
-            "enable": "none needed: the seams are libc interposition inside the harness binary and a parking_lot shim selected by a shadow manifest; /repo is compiled unmodified",
+            "enable": "none needed: the seams are libc interposition inside the harness binary and a parking_lot shim selected by a shadow manifest; /repo is compiled unmodified (guard name reserved, unused)",
             "baseline_off_cmd": "cd /repo && cargo test --workspace --no-fail-fast --offline",
             "source_commits": [],
             "add_only": True,
         },
         "engines": [
             {"name": "casim-seq", "path": "engine/casim", "serves_properties": [c["property_id"] for c in checks if c["engine"] == "casim-seq"], "kind_free_text": "deterministic simulation, sequential build: real sources + libc interposer + SimDisk (crash/power images, fault plan), one simulated client"},
-            {"name": "casim-conc", "path": "engine/casim (feature conc) + engine/plshim", "serves_properties": [c["property_id"] for c in checks if c["engine"] != "casim-seq"], "kind_free_text": "deterministic simulation, concurrent build: shuttle coroutines under the harness's seeded scheduler, parking_lot shim, every lock op and libc call a scheduling point"},
+            {"name": "casim-conc", "path": "engine/casim (feature conc) + engine/plshim", "serves_properties": [c["property_id"] for c in checks if c["engine"] != "casim-seq"] + ["C06", "C07", "C13"], "kind_free_text": "deterministic simulation, concurrent build: shuttle coroutines under the harness's seeded scheduler, parking_lot shim, every lock op and libc call a scheduling point"},
         ],
         "checks": checks,
         "not_applicable": na,
-        "notes": "All checks: exit 0 held / 1 VIOLATION / 2 harness error. VERIF_SEED and VERIF_TIER honoured. Known findings: known_findings.json.",
+        "notes": "All checks: exit 0 held / 1 VIOLATION / 2 harness error. VERIF_SEED and VERIF_TIER honoured. Known findings and fixed defects: known_findings.json. Three genuine defects were repaired in /repo with fix: commits (8633b4a, 2b3c92e, b68755c).",
     }
     json.dump(m, open(os.path.join(VERIF, "MANIFEST.json"), "w"), indent=1)
 
